@@ -196,6 +196,10 @@ impl Parser {
             parse_errors: parse_errors.clone(),
         }));
         let r = match prsr.start() {
+            // After a syntax error the tree contains ANTLR's recovery nodes, which the visitor
+            // cannot walk (it panics on contexts without a labelled alternative). The result
+            // is discarded in that case anyway: report the collected errors only.
+            Ok(_) if !parse_errors.borrow().is_empty() => Ok(IdedExpr::default()),
             Ok(t) => Ok(self.visit(t.deref())),
             Err(e) => Err(ParseError {
                 source: Some(Box::new(e)),
